@@ -7,7 +7,7 @@ RULE = ('a reference encoder enumerates replies: question names of up to 3 label
         'answer lists over 5 record types {A, AAAA, PTR, CNAME, TXT} x 4 compression styles {uncompressed, pointer, pointer to '
         'pointer, label+pointer} (also inside PTR/CNAME RDATA), header variants (flags, rcode, extra NS+OPT sections): quick = 1 '
         'header x (names <= 2 labels x lists <= 2, 3-label names x lists <= 1) + 2 headers x lists <= 1; thorough = 4 headers x lists <= 2 for all names, '
-        'lists of exactly 3 for names <= 1 label x 2 headers, 2 more headers x lists <= 1; plus 15 hand-made seeds (pointer loops, '
+        'lists of exactly 3 for names <= 1 label x 2 headers, 2 more headers x lists <= 1; plus 18 hand-made seeds (names at the 253/254/255-octet limit, pointer loops, '
         'forward pointers, over-long names, count/length lies).  Every message is decoded intact, at every truncation and with '
         'every octet set to {00, FF, C0, 3F, 0C, +1, own offset-1}; a strict reference decoder classifies each datagram and on '
         'well-formed ones Squid\'s header, question and answer records must equal the reference; packed queries '
@@ -39,7 +39,7 @@ def run(ctx):
     cov.update({k: m['counters'].get(k, 0) for k in ('unpack_calls', 'wellformed_datagrams', 'field_by_field_comparisons',
                                                       'packed_queries', 'names_with_trailing_root_dot')})
     viol = seq.violations_from(m)
-    if not m['deadline_hit']:
+    if not m['deadline_hit'] and not m['crashes']:     # classes are assigned by the reference decoder, i.e. independent of violations
         def need(k, n):
             if oc.get(k, 0) < n:
                 raise HarnessError('vacuity guard: outcome class %s seen %d times (need %d): %r' % (k, oc.get(k, 0), n, oc))
